@@ -49,7 +49,7 @@ def bounds(tier):
     q = [(1, 2, 2), (2, 1, 2), (3, 1, 2), (2, 2, 2), (1, 3, 2)]
     t = q + [(3, 2, 2), (2, 2, 3), (2, 3, 2), (3, 1, 3)]
     return {"(n_b,n_o,n_t)": q if tier == "quick" else t, "direction_patterns": "all symmetric patterns", "rotation_patterns": "all (symbolic, by forking)",
-            "spectral_glue_k": [2, 3, 4] if tier == "quick" else [2, 3, 4, 5], "spectral_shift": {"calls_on_one_tool": 2, "k": 2, "shifts": "symbolic reals, pairwise distinct"}}
+            "spectral_glue_k": [2, 3, 4] if tier == "quick" else [2, 3, 4, 5], "spectral_shift": {"calls_on_one_tool": [2] if tier == "quick" else [2, 3], "k": [2] if tier == "quick" else [2, 3], "shifts": "symbolic reals, pairwise distinct"}}
 
 
 def shapes(tier, seed):
@@ -69,6 +69,8 @@ def shapes(tier, seed):
     for k in ((2, 3, 4) if tier == "quick" else (2, 3, 4, 5)):
         out.insert(0, {"kind": "spectral_glue", "k": k, "n": 3, "n_b": 0, "n_o": 0, "n_t": 0})
     out.insert(0, {"kind": "spectral_shift", "k": 2, "n": 3, "calls": 2, "n_b": 0, "n_o": 0, "n_t": 0})
+    if tier != "quick":
+        out.insert(0, {"kind": "spectral_shift", "k": 3, "n": 3, "calls": 3, "n_b": 0, "n_o": 0, "n_t": 0})
     return out
 
 
